@@ -1,5 +1,8 @@
 import ExprModel.Proofs.SourcePos
 import ExprModel.Gen.SetLocation
+import ExprModel.Proofs.LocMap
+import ExprModel.Syntax.Ast
+import ExprModel.Syntax.Token
 /-
 C13 — Errors point at the offending source position.
 
@@ -470,5 +473,74 @@ theorem vm_reports_location_of_current_opcode :
     Gen.Loc.vmRunDefer =
       "defer func() { if r := recover(); r != nil { f := &file.Error{ Location: program.Locations[vm.pp], Message: fmt.Sprintf(\"%v\", r), } err = f.Bind(program.Source) } }()" := by
   decide +kernel
+
+/-! ## Part 3 — the location map of compiler and VM, for every compile script
+
+`LocMap` abstracts `compile`/`emit` from what is compiled (a node = its location + a script of `emit`s
+and child compilations); the Go statements it mirrors are pinned by `emit_records_top_node` and
+`vm_reports_location_of_current_opcode` above. -/
+
+open ExprModel.LocMap
+
+/-- **Every opcode is keyed by its own offset and carries the location of the innermost node being
+    compiled when it was emitted** — for every tree of compile scripts, at any depth; the node stack
+    is left as it was found. -/
+theorem emit_location_is_innermost_node (s : Script) :
+    (compile s { pc := 0, nodes := [], locs := [] }).locs = (expScript s 0).1 ∧
+    (compile s { pc := 0, nodes := [], locs := [] }).nodes = [] ∧
+    (compile s { pc := 0, nodes := [], locs := [] }).pc = (expScript s 0).2 := by
+  rw [compile_spec]; simp
+
+/-- offsets are written once each, in increasing order (so the Go map holds exactly these entries) -/
+theorem location_keys_strictly_increase (s : Script) :
+    ((compile s { pc := 0, nodes := [], locs := [] }).locs).Pairwise (fun a b => a.1 < b.1) := by
+  rw [(emit_location_is_innermost_node s).1]
+  exact (expScript_sorted s 0).2.2
+
+/-- **A run that fails at opcode offset `pp` is reported at the location of the node whose own
+    `emit` produced that opcode** (`program.Locations[vm.pp]`). -/
+theorem vm_report_is_emitting_node (s : Script) (pp : Nat) (l : Loc) (h : (pp, l) ∈ (expScript s 0).1) :
+    report (compile s { pc := 0, nodes := [], locs := [] }).locs pp = l := by
+  rw [(emit_location_is_innermost_node s).1]
+  have hs := (expScript_sorted s 0).2.2
+  have hd : ((expScript s 0).1.reverse).Pairwise (fun a b => a.1 ≠ b.1) := by
+    rw [List.pairwise_reverse]
+    exact hs.imp (fun hab => by omega)
+  unfold report
+  rw [lookup_of_mem_distinct _ hd pp l (by simpa using h)]
+
+/-- `ConditionalNode` as compiled today (`compile(Cond); JumpIfFalse; Pop; compile(Exp1); Jump; Pop;
+    compile(Exp2)`, the node itself unlocated): a failure at its `JumpIfFalse` (offset 3 here: after a
+    3-byte `Push`) is reported at 0:0, while the failures inside the operands keep their own locations. -/
+theorem conditional_reports_zero_witness :
+    let c : Script := .node { line := 1, col := 0 } [.emit 2]
+    let a : Script := .node { line := 1, col := 4 } [.emit 2]
+    let b : Script := .node { line := 1, col := 8 } [.emit 2]
+    let cond : Script := .node {} [.sub c, .emit 2, .emit 0, .sub a, .emit 2, .emit 0, .sub b]
+    report (compile cond { pc := 0, nodes := [], locs := [] }).locs 3 = { line := 0, col := 0 } ∧
+    report (compile cond { pc := 0, nodes := [], locs := [] }).locs 0 = { line := 1, col := 0 } ∧
+    report (compile cond { pc := 0, nodes := [], locs := [] }).locs 7 = { line := 1, col := 4 } := by
+  decide
+
+/-! ## What remains for the end-to-end statement (`_goal`)
+
+The single-fault claim itself ("one fault at position p ⇒ the reported location is p") composes the
+layers above with the lexer, parser, checker and compiler models written by the other builders.
+Stated over their interfaces so that they can be discharged at merge time; until then the claim is
+checked by the single-fault oracles of harness/c13_oracle.go on the real code. -/
+
+/-- lexer model: every token other than EOF is located at `posOf` of the offset where it starts -/
+def token_positions_goal (lex : List Char → Option (List (Token × Nat))) : Prop :=
+  ∀ src toks, lex src = some toks → ∀ t ∈ toks, t.1.kind ≠ .eof → t.1.loc = posOf src t.2
+
+/-- parser model: every node of a parsed tree, conditionals excepted, carries the location of a token
+    of the input (which token: `node_loc_table`) -/
+def node_locations_goal (parse : List Token → Option Node) (nodesOf : Node → List Node) : Prop :=
+  ∀ toks root, parse toks = some root → ∀ n ∈ nodesOf root,
+    (∃ m c a b, n = Node.cond m c a b) ∨ ∃ t ∈ toks, n.getMeta.loc = t.loc
+
+/-- compiler model: the locations map of a compiled tree is the one of its compile script -/
+def compile_locations_goal (scriptOf : Node → Script) (locationsOf : Node → List (Nat × Loc)) : Prop :=
+  ∀ n, locationsOf n = (expScript (scriptOf n) 0).1
 
 end ExprModel.C13
